@@ -1,7 +1,7 @@
-\* thorough tier: the pool claim and the standalone claim with three environment steps
-CONSTANTS Claims = {"c1", "c2"}  MaxNow = 1000  MaxFaults = 1  MaxEnv = 3  MaxLen = 30  NoopEvery = 1  OffBefore = {1, 500}  OffAfter = {0, 1}
+\* thorough tier: the unregistered claim with three environment steps and a node that may also report Ready=Unknown
+CONSTANTS Claims = {"c3"}  MaxNow = 1000  MaxFaults = 1  MaxEnv = 3  MaxLen = 30  NoopEvery = 1  OffBefore = {1, 500}  OffAfter = {0, 1}
           EA = 600  LT = 300  RT = 900  TolReady = 120  TolUnk = 90  TolDisk = 60  UnknownFirst = TRUE
-          PoolBg = {0}  OtherBg = {0}  MaxBad = 0  MaxDel = 0  ReadyVals = {"True", "False"}
+          PoolBg = {0}  OtherBg = {0}  MaxBad = 0  MaxDel = 0  ReadyVals = {"True", "False", "Unknown"}
           RoundedClock = {}  ExpireSlack = 0  ExpireNever = "check"  GcOnProvListError = "abort"  GcOnLookupError = "skip"  GcReady = "check"  NotFoundAsEmpty = {}  GcReadOrder = "claimsFirst"  LiveGate = "registered"
           LiveSlack = 0  RepairSlack = 0  RepairTolBy = "policy"  RepairExtra = 0  RepairScope = "pool"  RepairOnListError = "abort"  RepairTerminating = "count"
 SPECIFICATION Spec
